@@ -101,7 +101,11 @@ static Built build_pattern(BigDfa& sm, const Buffer& buf) {
         r.states = sm.size();
     } catch (const BoundsHit& h) { r.bounds = true; r.what = h.what; }
     catch (const Horizon&) { r.threw = true; r.what = "step horizon"; }
-    catch (const std::exception& e) { r.threw = true; r.what = e.what(); }
+    catch (const std::exception& e) {
+        // the size analysis runs first in every user-visible path (regex::expr, regex_term) and gates the builder; a pattern it refuses can
+        // make the harness's fixed-size automaton overflow half-way (e.g. "]{222}|"), which says nothing about ctpg
+        if (r.analyzer_ok) { r.threw = true; r.what = e.what(); } else r.ok = false;
+    }
     return r;
 }
 
